@@ -115,6 +115,13 @@ def rule_fallback(ctx):
             ok = len(errs) == 1 and len(snd) == 1 and len(errs[0].args) >= 3 and norm.text(errs[0].args[0]) == "message.Invocation.MESSAGE_TYPE" and norm.text(errs[0].args[1]) == "msg.request"
             ctx.ob(f"{name}: handler for {'/'.join(ts)} sends ERROR(INVOCATION, msg.request, ...)", ok, "fallback ERROR missing or for another request", fn.loc(h.ast))
             if errs:
+                # the fallback must be sendable where the reply was not: it may not carry (a rendering of) the rejected payload
+                PAYLOAD = ("reply.args", "reply.kwargs", "reply.payload", "res", "res.results", "res.kwresults", "err.value.args", "err.value.kwargs", "reply")
+                carried = sorted({norm.text(x) for x in ast.walk(errs[0]) if isinstance(x, (ast.Name, ast.Attribute)) and isinstance(getattr(x, "ctx", None), ast.Load)
+                                  and norm.text(x) in PAYLOAD})
+                ctx.ob(f"{name}: fallback ERROR for {'/'.join(ts)} does not embed the rejected payload", not carried,
+                       f"the ERROR text renders {carried}: for an oversized (or unserializable) payload the fallback is itself oversized, its send raises out of "
+                       f"`{name}` and the invocation gets no terminal reply at all", fn.loc(errs[0]))
                 sent = norm.text(snd[0].args[0]) if snd else None
                 asg = [s_ for b in h.ast.body for s_ in ast.walk(b) if isinstance(s_, ast.Assign) and s_.value is errs[0]]
                 ctx.ob(f"{name}: handler for {'/'.join(ts)} sends the ERROR it built", bool(asg) and sent == norm.text(asg[0].targets[0]), f"sends {sent}", fn.loc(h.ast))
